@@ -4,6 +4,9 @@
 //	   B/P lines for the Lean judge (tab separated, see harness/c04/run.go), M lines (JSON meta) for the plugin
 //	c04 -mode regex [-seed N] [-n K]
 //	   validator correspondence: "V\t<validator>\t<escaped string>\t<0|1>" (1 = the real validator accepts)
+//	c04 -mode print [-seed N] [-n K] [-stride K] [-scen I] [-site S]
+//	   fragment scenarios with hostile values in every guarded field, through the real pipeline: JSON lines for the
+//	   Lean driver mode `print` (see harness/c04/print.go)
 //	c04 -mode leaves      list the enumerated leaves
 //	c04 -mode probe -base http -only <leaf path substring> -value <string>   show what one value does (replay aid)
 package main
@@ -30,6 +33,8 @@ func main() {
 	value := flag.String("value", "", "")
 	workers := flag.Int("workers", 4, "")
 	levels := flag.Int("levels", 3, "")
+	scen := flag.Int("scen", -1, "")
+	siteName := flag.String("site", "", "")
 	flag.Parse()
 	w := bufio.NewWriterSize(os.Stdout, 1<<20)
 	defer w.Flush()
@@ -46,6 +51,8 @@ func main() {
 		}
 	case "regex":
 		c04.Validators(w, *seed, *n)
+	case "print":
+		c04.Print(w, *seed, *n, *stride, *scen, *siteName)
 	case "probe":
 		w.Flush()
 		c04.Probe(*base, *only, *value)
